@@ -158,7 +158,8 @@ def run_one(seed, tape, opts):
             base.append(("close",))
         c.script = base
     if opts.get("faults", True):
-        ca.pick_faults(tape, w, ca.CONN_FAULTS, 5)
+        ca.pick_faults(tape, w, ca.CONN_FAULTS + (
+            ("restart_unwelcome",) if tape.choose(3, "unw") == 0 else ()), 5)
     order = ca.EventOrderOracle(clients, versions_first=True)
     viol = []
     closed_checks = {}
